@@ -44,6 +44,17 @@ func concInputs(c *genCtx) []concInput {
 	for _, d := range treeShapes(c) {
 		add("doc", d)
 	}
+	// wide containers at the top level and nested (size hints, growth policies and anything else keyed on the
+	// number of members: 63 / 64 / 65, 255..257, 1000), several times each so that they meet in every window
+	for rep := 0; rep < 3; rep++ {
+		for _, n := range []int{63, 64, 65, 255, 256, 257, 1000} {
+			add("doc", arrWithElems(n))
+			add("doc", objWithKeys(n))
+			add("doc", append(append([]byte(`{"w":`), arrWithElems(n)...), `,"v":[{}]}`...))
+			add("doc", append(append([]byte(`[[],`), objWithKeys(n)...), `,{"a":1}]`...))
+			add("doc", append(objWithKeys(n)[:12], `:`...)) // wide and malformed
+		}
+	}
 	// malformed part-way through nested values (error exits of the generic decoder and the traversals)
 	for _, s := range []string{`[{"a":1,"c":}]`, `[{"a":1,"c":}`, `{"a":[1,{"b":}]}`, `[[1,2],[3,`, `{"a":{"b":{"c":[1,}}}`, `[{"a":[]},{"b":[}]`, `{"k":[{"x":1},{"y":}]}`,
 		`[1e400]`, `{"a":1e400}`, `[{"a":"\ud83d\ude00"},{"b":"\q"}]`, `[[[[[[[[1,]]]]]]]]`, `{"a":"x\ny","b":"\u12"}`} {
